@@ -187,4 +187,13 @@ CLAIMED = {
             "verifier) and requires equality, and for crafted claim sets accept <=> consistent, with the registered values used.",
             "Conversion back is reached through the public validators; empty custom-claim maps identified with none.",
             "DESIGN.md §3 C07"),
+    "C18": ("TLA+ spec Jwk (decision table over parameter family, private-member subsets, optional members, member order, origin "
+            "and declared type) evaluated by TLC; every row executed on the real Jwk / VerificationMethod / key generation code",
+            "model_checking",
+            "TLC enumerates 22 477 key shapes and computes obtainability, public/private status, existence of the public "
+            "projection and admissibility for verification methods; the harness obtains each key the way the row says and "
+            "checks kty = carried family, is_public, to_public (no private member, public part kept, idempotent), thumbprint "
+            "invariance, refusal of private members by the method constructors, and that generated keys/documents are public.",
+            "SHA-256 trusted; parameters are syntactic.",
+            "DESIGN.md §3 C18"),
 }
